@@ -1592,6 +1592,30 @@ func main() {
 	progUses := findProgUses(stub)
 	specMapRefs := findSpecMapRefs(stub)
 	newMapTypes := findNewMapTypes(realP)
+	// construction sites of the shared types + helper constructors (sites.go): the stub build's files, plus
+	// the files that exist only in the real build (bpf_utils.go: cidrToBpfLpmKey, bpfPortRange.Encode, …)
+	buildSites := append(findBuildSites(stub, stubL.fset, "stub", nil), findBuildSites(realP, realL.fset, "real", realOnly)...)
+	// helper constructors: every file of either build; `builds` says which builds contain the function
+	realFiles := map[string]bool{}
+	for _, n := range realP.names {
+		realFiles[n] = true
+	}
+	ctorSigs := mergeCtorSigs(findCtorSigs(stub, stubL.fset, "stub", nil), findCtorSigs(realP, realL.fset, "real", nil), stubFiles, realFiles)
+	// types the control plane hands to the kernel: as a map key (any method), or as a value it WRITES
+	kb := map[string]bool{}
+	for _, c := range mapIOs {
+		if c.TypeName == "" {
+			continue
+		}
+		if c.Role == 0 || strings.Contains(c.Via, "Update") || strings.Contains(c.Via, "Put") || strings.Contains(c.Via, "newLpmMap") {
+			kb[c.TypeName] = true
+		}
+	}
+	var kernelBound []string
+	for k := range kb {
+		kernelBound = append(kernelBound, k)
+	}
+	sort.Strings(kernelBound)
 	archTables := map[string][]Rec{}
 	for _, c := range classes {
 		for _, a := range c.Arches {
@@ -1609,7 +1633,8 @@ func main() {
 		return o
 	}(), "mapTags": mapTags, "progTags": progTags, "varTags": varTags, "spec": sp,
 		"mapIO": mapIOs, "listenUse": listenUse, "fieldLiterals": fieldLits, "paramInit": paramInit, "nativeEndian": endian,
-		"progAttach": progAttach, "progUses": progUses, "specMapRefs": specMapRefs, "newMapTypes": newMapTypes}
+		"progAttach": progAttach, "progUses": progUses, "specMapRefs": specMapRefs, "newMapTypes": newMapTypes,
+		"buildSites": buildSites, "ctorSigs": ctorSigs, "kernelBound": kernelBound}
 	jb, _ := json.MarshalIndent(js, "", " ")
 	must(os.WriteFile(filepath.Join(outdir, "c19_go.json"), jb, 0o644))
 
@@ -1695,6 +1720,29 @@ func main() {
 	fmt.Fprintf(&b, "/-- programs package control refers to outside the declaration files -/\ndef goProgUses : List Name := %s\n\n", leanStrs(progUses))
 	fmt.Fprintf(&b, "/-- map names the loader looks up as `spec.Maps[\"…\"]` -/\ndef goSpecMapRefs : List Name := %s\n\n", leanStrs(specMapRefs))
 	fmt.Fprintf(&b, "/-- `ebpf.MapSpec{Type: ebpf.<T>}` literals of the real build: (function, T) -/\ndef goNewMapTypes : List (Name × Name) := %s\n", pairs(newMapTypes))
+	boolL := func(v bool) string {
+		if v {
+			return "true"
+		}
+		return "false"
+	}
+	b.WriteString("\n/-- every place where package control constructs or modifies a value of a `bpf*` data type other than by a map read (translators/c19_go/sites.go): (function, type, kind lit/zero/store/cast/slice, fields set, address handed to a call, returned, where) -/\n")
+	b.WriteString("def goBuildSites : List BuildSite := [\n")
+	for i, c := range buildSites {
+		fmt.Fprintf(&b, "  ⟨%s, %s, %s, %s, %s, %s, %s⟩", leanStr(c.Func), leanStr(c.Type), leanStr(c.Kind), leanStrs(c.Fields), boolL(c.ToCall), boolL(c.Returns), strconv.Quote(c.Where))
+		if i != len(buildSites)-1 {
+			b.WriteString(",\n")
+		}
+	}
+	b.WriteString("]\n\n/-- package-level functions returning a `bpf*` data type: (function, type, result is a pointer, parameter types as written, number of results) -/\n")
+	b.WriteString("def goCtorSigs : List CtorSig := [\n")
+	for i, c := range ctorSigs {
+		fmt.Fprintf(&b, "  ⟨%s, %s, %s, %s, %d⟩", leanStr(c.Func), leanStr(c.Type), boolL(c.Ptr), leanStrs(c.Params), c.Nres)
+		if i != len(ctorSigs)-1 {
+			b.WriteString(",\n")
+		}
+	}
+	fmt.Fprintf(&b, "]\n\n/-- struct types the control plane hands to the kernel as a map key, or as a value it writes (from goMapIO) -/\ndef goKernelBoundTypes : List Name := %s\n", leanStrs(kernelBound))
 	b.WriteString("\nend DaeVerif.C19.Gen\n")
 	must(os.WriteFile(filepath.Join(leandir, "GoLayout.lean"), []byte(b.String()), 0o644))
 
